@@ -2,6 +2,7 @@
 package rules
 
 import (
+	"go/token"
 	"go/types"
 	"sort"
 	"strings"
@@ -258,4 +259,38 @@ func emitsEvent(in ssa.Instruction, depth int) bool {
 		}
 	}
 	return false
+}
+
+// caseConstsInto: when every way into block b is the true edge of a comparison `v == k` with a constant (the arms of a
+// switch with several values per case), returns the compared value and the constants; ok=false otherwise.
+func caseConstsInto(b *ssa.BasicBlock) (ssa.Value, []int64, bool) {
+	var subject ssa.Value
+	var ks []int64
+	if len(b.Preds) == 0 {
+		return nil, nil, false
+	}
+	for _, pr := range b.Preds {
+		if len(pr.Instrs) == 0 {
+			return nil, nil, false
+		}
+		iff, ok := pr.Instrs[len(pr.Instrs)-1].(*ssa.If)
+		if !ok || pr.Succs[0] != b || pr.Succs[1] == b {
+			return nil, nil, false
+		}
+		bo, ok := iff.Cond.(*ssa.BinOp)
+		if !ok || bo.Op != token.EQL {
+			return nil, nil, false
+		}
+		x, y := bo.X, bo.Y
+		if _, isK := ConstInt(x); isK {
+			x, y = y, x
+		}
+		k, isK := ConstInt(y)
+		if !isK || (subject != nil && subject != x) {
+			return nil, nil, false
+		}
+		subject = x
+		ks = append(ks, k)
+	}
+	return subject, ks, true
 }
